@@ -1251,3 +1251,97 @@ func c08r14(rc *core.RC) {
 	}
 	rc.OK("module/fmt-calls", token.NoPos, "%d calls of fmt's variadic formatting functions in the library: none is given an empty interface or a reflect.Value (arguments are strings, numbers, types, opcodes, errors)", n)
 }
+
+// ---- C08.R15 a marshaler method is not called on a nil pointer ----
+
+// The helpers that call the user's MarshalJSON / MarshalText obtain the value through reflect. encoding/json writes
+// null for a nil pointer and does not call the method (a pointer-receiver method on a nil pointer usually dereferences
+// it). Every such call in the encoder's helpers has to be behind a returning test `rv.Kind() == reflect.Ptr && rv.IsNil()`.
+func c08r15(rc *core.RC) {
+	p := rc.P
+	n := 0
+	for _, fd := range p.Funcs("encoder") {
+		if fd.Body == nil {
+			continue
+		}
+		info := p.Info(fd)
+		var calls []*ast.CallExpr
+		ast.Inspect(fd.Body, func(m ast.Node) bool {
+			c, ok := m.(*ast.CallExpr)
+			if !ok {
+				return true
+			}
+			sel, isSel := c.Fun.(*ast.SelectorExpr)
+			if !isSel || (sel.Sel.Name != "MarshalJSON" && sel.Sel.Name != "MarshalText") {
+				return true
+			}
+			// an interface method call on a local obtained by a type assertion
+			if tv, has := info.Types[sel.X]; has {
+				if _, isIface := tv.Type.Underlying().(*types.Interface); isIface {
+					calls = append(calls, c)
+				}
+			}
+			return true
+		})
+		if len(calls) == 0 {
+			continue
+		}
+		// is the asserted value taken from a reflect.Value?
+		usesReflect := false
+		ast.Inspect(fd.Body, func(m ast.Node) bool {
+			if c, ok := m.(*ast.CallExpr); ok && core.CalleeName(info, c) == "reflect.Value.Interface" {
+				usesReflect = true
+			}
+			return true
+		})
+		if !usesReflect {
+			continue
+		}
+		fn := p.FuncName(fd)
+		rc.Touch(fn)
+		cf := core.BuildCFGFor(fd, info)
+		// the guarding test
+		var guard *ast.IfStmt
+		ast.Inspect(fd.Body, func(m ast.Node) bool {
+			ifs, ok := m.(*ast.IfStmt)
+			if !ok || guard != nil {
+				return true
+			}
+			isNil, isPtr := false, false
+			ast.Inspect(ifs.Cond, func(k ast.Node) bool {
+				if c, isCall := k.(*ast.CallExpr); isCall && core.CalleeName(info, c) == "reflect.Value.IsNil" {
+					isNil = true
+				}
+				if be, isBin := k.(*ast.BinaryExpr); isBin && be.Op == token.EQL {
+					if c, isCall := core.Unparen(be.X).(*ast.CallExpr); isCall && core.CalleeName(info, c) == "reflect.Value.Kind" {
+						isPtr = true
+					}
+				}
+				return true
+			})
+			if !isNil || !isPtr {
+				return true
+			}
+			for _, st := range ifs.Body.List {
+				if _, isRet := st.(*ast.ReturnStmt); isRet {
+					guard = ifs
+				}
+			}
+			return true
+		})
+		for i, c := range calls {
+			n++
+			key := fmt.Sprintf("%s/%s-call#%d not-on-nil-pointer", fn, c.Fun.(*ast.SelectorExpr).Sel.Name, i+1)
+			if guard == nil {
+				rc.Bad(key, c.Pos(), "%s calls the user's %s on the value it took out of a reflect.Value without a returning test for a nil pointer: Marshal([]*T{nil}) with a pointer-receiver method calls it on nil (panic in the method) where encoding/json writes null", fn, c.Fun.(*ast.SelectorExpr).Sel.Name)
+				continue
+			}
+			gb, _ := cf.BlockOf(guard.Cond)
+			cb, _ := cf.BlockOf(c)
+			rc.Check(gb != nil && cb != nil && (gb == cb || cf.Dominates(gb, cb)) && guard.Pos() < c.Pos(), key, c.Pos(), "the call is behind the returning test `%s`", core.Src(p.Fset, guard.Cond))
+		}
+	}
+	if n < 6 {
+		rc.Unknown("encoder/marshaler-calls", token.NoPos, "found %d marshaler method calls on reflected values (confirmed: 3 in AppendMarshalJSON, 3 in its indent twin, 1 each in the two text helpers)", n)
+	}
+}
